@@ -132,6 +132,20 @@ theorem C16_live_name_not_registrable_by_others (s : State) (h : Int) (c raw n d
     have : w.value ≠ cc := fun e => hne (by rw [hcc, e])
     simp [regExpiry, hw, hlive, this] at hex
 
+/-- The free name handed out by `Init` is a registration as well: it only ever lands on a name that
+is not live (never registered, or expired), so a paid, unexpired name cannot be taken that way, and
+every other name record is left as it was. -/
+theorem C16_init_never_takes_a_live_name (s s' : State) (h : Int) (c g : String)
+    (hstep : step s h (.init c g) = some s') :
+    isLive s (nameKey g "jkl") h = false ∧
+    ∀ key, key ≠ nameKey g "jkl" → AMap.get s'.names key = AMap.get s.names key := by
+  obtain ⟨cc, -, hcc, hstep⟩ := step_some hstep
+  simp only [handle, init, bind, Option.bind_eq_some_iff, req_eq_some] at hstep
+  obtain ⟨_, -, _, -, _, -, _, hnl, hs⟩ := hstep
+  simp only [Option.some.injEq] at hs; subst hs
+  refine ⟨by simpa using hnl, fun key hk => ?_⟩
+  exact AMap.get_set_other _ _ _ _ (Ne.symm hk)
+
 /-- A failed registration (like every failed message) costs nothing: the state is unchanged. -/
 theorem C16_failed_register_costs_nothing (s : State) (h : Int) (op : Op)
     (hfail : step s h op = none) : stepT s h op = s := by
